@@ -187,6 +187,9 @@ func c10Run(c *fw.Case, env *fw.Env) *fw.Obs {
 			}
 		case pl.Relation == "remote-ahead":
 			o.Ev("ff_merges_expected", 1)
+			if out.err != nil && p.Peel == 0 { // a target spelled below the branch is rightly refused
+				o.Violate("fast-forward-refused/"+class, "%s is an ancestor of the other commit, so this is a plain fast-forward, yet the command failed: %v", name, out.err)
+			}
 			if p.FF == "no-ff" {
 				if out.err == nil && (after == before || !isAnc(before, after) || !isAnc(remote, after)) {
 					o.Violate("no-ff-merge-wrong/"+class, "--no-ff: %s went %x -> %x (must be a new commit descending from both %x and %x)", name, before, after, before, remote)
